@@ -92,6 +92,9 @@ def pair_conds(layout, ref, mach, nlen_is):
     return [(f'outcome (reference {ref.code}, machine {mcode})', z3.BoolVal(False))]
 
 
+TIME_BUDGET = 600
+
+
 def compare(prog, comp, layout, K, with_end, st, key, max_paths):
     d = st.d
     solver = z3.Solver(); solver.set('timeout', 30000)
@@ -101,8 +104,9 @@ def compare(prog, comp, layout, K, with_end, st, key, max_paths):
     sx = {'queries': 0, 'solver_time': 0.0}
     machine = absm.Machine(comp.post, layout, strict_done=False)
     try:
-        rp = symx.explore(refsem.run(prog, bs, nvar, with_end), solver, assumptions=base, stats=sx, max_paths=max_paths)
-        mp = symx.explore(m2m.erun(machine, layout, bs, with_end, nvar=nvar, start_actions=comp.pctx.start_actions), solver, assumptions=base, stats=sx, max_paths=max_paths)
+        deadline = time.time() + TIME_BUDGET   # per exploration; a program that is not explored in time is listed as not decided (like the path budget)
+        rp = symx.explore(refsem.run(prog, bs, nvar, with_end), solver, assumptions=base, stats=sx, max_paths=max_paths, deadline=deadline)
+        mp = symx.explore(m2m.erun(machine, layout, bs, with_end, nvar=nvar, start_actions=comp.pctx.start_actions), solver, assumptions=base, stats=sx, max_paths=max_paths, deadline=deadline)
     except symx.PathBudget:
         d['cov'].setdefault('path_budget_exceeded', []).append(key)
         return None
@@ -112,7 +116,11 @@ def compare(prog, comp, layout, K, with_end, st, key, max_paths):
     out = []
     pcB = {i: (z3.And(*pc) if pc else z3.BoolVal(True)) for i, (pc, r) in enumerate(mp)}
     # coverage: the reference paths partition the input space (by construction of explore); vacuity: each region non-empty (explore only keeps feasible paths)
+    t_cmp = time.time()
     for pc, ref in rp:
+        if time.time() - t_cmp > 2 * TIME_BUDGET:
+            d['cov'].setdefault('path_budget_exceeded', []).append(key + ' (time budget in the pairwise comparison)')
+            return None
         solver.push(); solver.add(*base, *pc, z3.Not(z3.Or(*ref.ubs)) if ref.ubs else z3.BoolVal(True))
         remaining = list(range(len(mp)))
         while True:
@@ -241,7 +249,7 @@ def main(tier, replay_path):
     run.cov['reference_validation'] = {'annotated_cases_reproduced': good, 'mismatches': bad}
     if bad or good < 30:
         run.harness_error(f'reference interpreter does not reproduce the repo annotations: {bad[:3]} (ok {good})')
-    run.bounds = {'input_bytes_K': K, 'end_of_input': 'runs that end with end() are decided by C17 (same engine)', 'path_budget': 4000 if tier == 'quick' else 20000,
+    run.bounds = {'input_bytes_K': K, 'end_of_input': 'runs that end with end() are decided by C17 (same engine)', 'path_budget': 4000 if tier == 'quick' else 20000, 'time_budget_s': f'{TIME_BUDGET} per exploration, {2 * TIME_BUDGET} per pairwise comparison; programs over a budget are listed as not decided',
                   'programs': 'corpus (examples, *.ok tests, verif corpus; macros expanded textually first) + seeded generator'}
     run.assumptions = ['slack exactly as DESIGN §4 C01: pending events at end of input / when an error strikes may be missing on the machine side (prefix); a trailing byte nothing accepts may be FAIL on the machine side',
                        '$last compared only through the values it produces', 'foreach do-actions run before the per-byte append (generator keeps the order unobservable)', 'arithmetic UB and reads beyond the string length excluded', 'runs in which a computed-character append (s += [expr]) runs out of space are excluded: which byte the handler then sees depends on whether the action is scheduled with the byte before or after it, which the language leaves open (the C-level behaviour of such overflows is compared by C06/C02/C10)']
